@@ -730,6 +730,26 @@ func judge(r *report.R, q request) {
 	inF, df := best(file)
 	inP, dp := best(pipe)
 
+	// a child answer that a second child does not repeat says nothing about
+	// the code (a process that could not start, for instance): no verdict
+	if len(df) > 0 {
+		if again := serve("file", q); len(compare(file, again)) > 0 {
+			r.Add("unstable_child_answers", 1)
+			r.Capped(fmt.Sprintf("%s %s: two file-transport children answered differently; not judged", q.Method, q.Target))
+
+			df = nil
+		}
+	}
+
+	if len(dp) > 0 {
+		if again := serve("pipe", q); len(compare(pipe, again)) > 0 {
+			r.Add("unstable_child_answers", 1)
+			r.Capped(fmt.Sprintf("%s %s: two pipe-transport children answered differently; not judged", q.Method, q.Target))
+
+			dp = nil
+		}
+	}
+
 	type hit struct {
 		d          difference
 		in, ch     response
